@@ -76,6 +76,36 @@ def shrink_pair(ck, exe, driver, formula, budget=36):
     return " ".join(toks)
 
 
+def shrink_pred(formula, pred, budget=30):
+    """delta-debug on tokens (whole parenthesised sub-terms first) while pred(formula) holds"""
+    toks = [t for t in L.TOKEN_RE.findall(formula) if not t.isspace()]
+    changed = True
+    while changed and budget > 0:
+        changed = False
+        cands = []
+        for i, t in enumerate(toks):
+            if t == "(":
+                depth = 0
+                for j in range(i, len(toks)):
+                    depth += toks[j] == "("
+                    depth -= toks[j] == ")"
+                    if depth == 0:
+                        cands.append(toks[:i] + ["x"] + toks[j + 1:])
+                        break
+        cands += [toks[:i] + toks[i + 1:] for i in range(len(toks))]
+        for cand in cands:
+            if not cand or len(cand) >= len(toks):
+                continue
+            budget -= 1
+            if pred(" ".join(cand)):
+                toks = cand
+                changed = True
+                break
+            if budget <= 0:
+                break
+    return " ".join(toks)
+
+
 def pattern(formula):
     """input class of a formula: identifiers -> v, numbers -> n"""
     out = []
@@ -159,6 +189,22 @@ def run(ck):
     for _ in range(n_val):
         f = gv.formula(6)
         reqs.append(("value", "V %s;%s" % (L.bind_str(L.random_point(rng)), f), f))
+    # standing check of the export clause, independent of the model: the exported C++ formula, evaluated
+    # under C++ semantics (c13lib.cxx_eval), has the value getValue() returns
+    n_x = 700 if ck.quick else 15000
+    gx = L.Gen(rng, tab)
+    export_env = {}
+    for _ in range(n_x):
+        f = gx.formula(6)
+        env = L.random_point(rng)
+        reqs.append(("export", "P " + f, f))
+        export_env[len(reqs)] = env
+        reqs.append(("exportv", "V %s;%s" % (L.bind_str(env), f), f))
+    for f in ["-(x+y)", "z+-(x-y)", "-(x>y ? x : y)", "exp(-(x+y))", "-(x-y)**2/z", "-(-(x+y)-z)", "x*-(y+z)", "-(x*y)", "-x"]:
+        env = {"x": 1.25, "y": -0.5, "z": 2.0}
+        reqs.append(("export", "P " + f, f))
+        export_env[len(reqs)] = env
+        reqs.append(("exportv", "V %s;%s" % (L.bind_str(env), f), f))
     gq = L.Gen(rng, tab)
     for _ in range(n_q):
         f = gq.formula(4)
@@ -182,6 +228,37 @@ def run(ck):
     ck.log("model answered")
     if mcr:
         ck.violation("model-crash", "the Lean driver died on a request", {"request": mcr[0][1], "stderr": mcr[0][3]}, False)
+
+    # ------------------------------------------------------------------ export clause (model independent)
+    xstat = {"same": 0, "different": 0, "undecided": 0}
+    xrep = 0
+    for j, env in sorted(export_env.items()):
+        if j >= len(impl) or not impl[j - 1].startswith("ok ") or not impl[j].startswith("val "):
+            continue
+        rend = impl[j - 1][3:].split(" RESOLVE-DIFF ")[0].split(" CLONE-DIFF ")[0]
+        val = L.hex_dbl(impl[j].split()[1])
+        verdict, rv = L.export_verdict(rend, env, val)
+        xstat[verdict] += 1
+        if verdict == "different" and xrep < 3:
+            xrep += 1
+            f = reqs[j][2]
+
+            def still(cand):
+                ia, _ = L.run_lines(ck, exe, ["P " + cand, "V %s;%s" % (L.bind_str(env), cand)])
+                if not (ia[0].startswith("ok ") and ia[1].startswith("val ")):
+                    return False
+                return L.export_verdict(ia[0][3:].split(" RESOLVE-DIFF ")[0], env, L.hex_dbl(ia[1].split()[1]))[0] == "different"
+            small = shrink_pred(f, still)
+            ia, _ = L.run_lines(ck, exe, ["P " + small, "V %s;%s" % (L.bind_str(env), small)])
+            srend = ia[0][3:]
+            sval = L.hex_dbl(ia[1].split()[1])
+            srv = L.export_verdict(srend, env, sval)[1]
+            used = {k: v for k, v in env.items() if re.search(r"(?<![A-Za-z_])%s(?![A-Za-z_0-9\[])" % re.escape(k), small)}
+            ck.violation("export:" + pattern(small),
+                         "getCxxFormula() of '%s' is '%s', which evaluates to %r at %s in C++; Evaluator::getValue() gives %r" % (small, srend, srv, used, sval),
+                         {"formula": f, "minimised": small, "point": env, "exported_cxx_formula": srend,
+                          "value_of_exported_formula": srv, "getValue": sval,
+                          "original_exported_cxx_formula": rend, "original_value_of_exported_formula": rv, "original_getValue": val}, True)
 
     # ------------------------------------------------------------------ comparison
     hist = {"ok": 0, "val": 0, "skipped-by-model": 0}
@@ -264,6 +341,24 @@ def run(ck):
             ia, _ = L.run_lines(ck, exe, vl)
             ma, _ = L.run_lines(ck, driver, vl)
             found = False
+            # (i) the export clause: the implementation's rendering evaluated as C++ against getValue()
+            for p, x in zip(pts, ia):
+                if x.startswith("val"):
+                    vx = L.hex_dbl(x.split()[1])
+                    verdict, rv = L.export_verdict(a[3:], p, vx)
+                    if verdict == "different":
+                        found = True
+                        rep.update({"point": p, "exported_cxx_formula": a[3:], "value_of_exported_formula": rv, "getValue": vx})
+                        break
+            if found:
+                key = "export:" + pattern(f)
+                what = "getCxxFormula() of '%s' is '%s', which evaluates to %r at %s in C++; Evaluator::getValue() gives %r" % (
+                    f, a[3:160], rep["value_of_exported_formula"], {k: v for k, v in rep["point"].items() if k in f}, rep["getValue"])
+                if key not in reported:
+                    reported.add(key)
+                    ck.violation(key, what, rep, True)
+                continue
+            # (ii) the parse: the implementation's value against the model's value
             for p, x, y in zip(pts, ia, ma):
                 if x.startswith("val") and y.startswith("val"):
                     vx, vy = L.hex_dbl(x.split()[1]), L.hex_dbl(y.split()[1])
@@ -305,9 +400,10 @@ def run(ck):
         "rule": "requests = corpus + directed + seeded random formulas (type-directed trees to depth 8 printed with random redundant parentheses/white space; token mutations; values; parameter rewriting); distinct = distinct canonical implementation answers (rendered tree / error class / value bits); non-trivial = not a bare leaf",
         "exhaustive": False, "disagreements": disagreements,
         "traces_validated_against_impl": len(reqs) - hist["skipped-by-model"],
-        "streams": {"corpus": len(corpus), "valid": n_valid, "malformed": n_mal, "value": n_val, "rewrite": n_q,
+        "streams": {"corpus": len(corpus), "valid": n_valid, "malformed": n_mal, "value": n_val, "rewrite": n_q, "export": 2 * len(export_env),
                     "directed": sum(1 for r in reqs if r[0] == "directed")},
         "answers": hist, "error_kinds": errk, "mutation_kinds": mstats,
+        "export_clause": {"pairs": len(export_env), **xstat},
         "generator": {"valid": g.stats, "value": gv.stats},
         "tables": {k: len(v) for k, v in tab.items()},
         "samples": samples,
